@@ -27,7 +27,8 @@ def run(ctx):
         "K-KEY": "tables are read with keys of their key kind inside the hash functions",
     })
     eff = Effects(ctx)
-    check_pure(ctx, eff, res, "hashing.hash_hypergraph", roots=("hypergraph",))
+    with res.guard("check_purectx, eff, res, hashing.hash_hypergraph, rootshypergraph,"):
+        check_pure(ctx, eff, res, "hashing.hash_hypergraph", roots=("hypergraph",))
     hh = ctx.view("hashing.hash_hypergraph")
     # json.dumps(..., sort_keys=True)
     dumps = [n for n in ast.walk(hh.fi.node) if isinstance(n, ast.Call) and isinstance(n.func, ast.Attribute) and n.func.attr == "dumps"]
@@ -60,7 +61,8 @@ def run(ctx):
         d = f"{cls}.expose_attributes_for_hashing"
         v = ctx.view(d)
         f = v.fi.short
-        check_pure(ctx, eff, res, d, roots=("self",))
+        with res.guard("check_purectx, eff, res, d, rootsself,"):
+            check_pure(ctx, eff, res, d, roots=("self",))
         ctx.add_sites(res, ctx.sites(rules=("K-KEY",), funcs=[f]))
         # ---- S-HASHSORT: every append target list is filled inside a loop over sorted(...)
         appends = [n for n in walk_no_nested(v.fi.node) if isinstance(n, ast.Call) and isinstance(n.func, ast.Attribute) and n.func.attr == "append" and isinstance(n.func.value, ast.Name)]
@@ -135,8 +137,10 @@ def run(ctx):
             for t in sorted(read - {"_weighted", "_next_edge_id"}):
                 res.check(t in cleared, "S-HASHSTALE", f, f"self.{t}", "cleared", f"the hash reads {t}, which clear() leaves populated", loc(v.fi, v.fi.node))
         # the joint-update rules that keep the hashed tables in step (shared with C01-C04)
-        RC.check_remove_edge(ctx, res, cls)
-        RC.check_remove_node(ctx, res, cls)
+        with res.guard("RC.check_remove_edgectx, res, cls"):
+            RC.check_remove_edge(ctx, res, cls)
+        with res.guard("RC.check_remove_nodectx, res, cls"):
+            RC.check_remove_node(ctx, res, cls)
     res.rules["P-DEL"] = "remove_edge prunes every id-keyed table and the incidence lists (hash reads them)"
     res.rules["P-NODE"] = "remove_node prunes every node table (hash enumerates nodes from them)"
     res.assumptions += ["SHA-256 / json.dumps are trusted; collision freedom is not decided", "labels and metadata are JSON-representable and mutually comparable (property quantifier)"]
